@@ -34,10 +34,10 @@ theorem cstat_ackBook {P : Par} {c : Client.Cli} (hc : CStat P c) : CStat P (ack
   exact ⟨hc.running, hc.conn, hc.imm, hc.uid, hc.uch, hc.td, hc.L, hc.enc, hc.ty, hc.cid, hc.cmc,
     by show ¬ c.now + 60 < c.now; omega, hc.oseq, hc.iseq, hc.ifrag, hc.seed⟩
 
-theorem mid_step {P : Par} (hP : P.Ok) {out : List Nat} {w : W} {c0 : Client.Cli} {o f : Nat}
-    (h : UpFlight P out w c0 o f) (h64 : out.length ≤ 65536)
-    (hlt : o + fragLen P (out.drop o) < out.length) (hf1 : f + 1 < 16) :
-    ∃ w' c0', promptSteps P.u 2 w = some w' ∧ UpFlight P out w' c0' (o + fragLen P (out.drop o)) (f + 1) ∧
+theorem mid_step {P : Par} (hP : P.Ok) {sl sp : Nat} {out : List Nat} {w : W} {c0 : Client.Cli} {o f : Nat}
+    (h : UpFlightS P sl sp out w c0 o f) (h64 : out.length ≤ 65536)
+    (hlt : o + fragLen P (out.drop o) < out.length) (hf1 : f + 1 < 16) (hsl : 1 ≤ sl ∧ sl ≤ 21 := by omega) :
+    ∃ w' c0', promptSteps P.u 2 w = some w' ∧ UpFlightS P sl sp out w' c0' (o + fragLen P (out.drop o)) (f + 1) ∧
       w'.tunS = w.tunS ∧ w'.tunC = w.tunC ∧ c0'.outpkt.seqno = c0.outpkt.seqno ∧
       (Server.getUser w'.srv P.u).tunIp = (Server.getUser w.srv P.u).tunIp ∧ c0'.selecttimeout = c0.selecttimeout ∧
       (Server.getUser w'.srv P.u).fragsize = (Server.getUser w.srv P.u).fragsize := by
